@@ -89,7 +89,8 @@ theorem sstep_inR (c : Cfg) (sh sh' : Sh) (pc pc' : SPc)
 /-- no environment event touches the incoming ring -/
 theorem estep_inR (c : Cfg) (s s' : St) (e : Env) (h : estep c s e = some s') : s'.sh.inR = s.sh.inR := by
   cases e with
-  | peerClose => simp only [estep] at h; by_cases h1 : s.sh.sock = .open <;> simp [h1] at h; subst h; rfl
+  | peerClose => simp only [estep] at h; by_cases h1 : s.sh.sock = .open ∨ s.sh.sock = .peerShut <;> simp [h1] at h; subst h; rfl
+  | peerShut => simp only [estep] at h; by_cases h1 : s.sh.sock = .open <;> simp [h1] at h; subst h; rfl
   | kaExpire =>
     simp only [estep] at h
     by_cases h1 : s.recv = .read ∧ s.sh.sock = .open
